@@ -54,7 +54,8 @@ structure Field where
 
 inductive Tail where
   | none
-  | vec (elt : List Field)
+  /-- counted vector of flat elements; `oddR`/`oddW`: spare bytes after an *odd* number of elements (read / write side) -/
+  | vec (elt : List Field) (oddR oddW : Nat)
   | set (s : SetId)
   | strEof (wn : Nat) (rraw wraw : Bool) (align : Nat)
   deriving DecidableEq, Repr
@@ -370,7 +371,7 @@ def tailCount : TailVal → Nat
 def decTail (env : Env) (t : Tail) (cnt : Option Nat) (bs : Bytes) : Out TailVal :=
   match t with
   | .none => .ok .none
-  | .vec elt =>
+  | .vec elt _ _ =>      -- the trailing spare bytes are skipped with `seek`: nothing to check on read
     (match decElems env elt (cnt.getD 0) bs with
      | .ok (es, _) => .ok (.elems es)
      | .err e => .err e
@@ -385,7 +386,11 @@ def decTail (env : Env) (t : Tail) (cnt : Option Nat) (bs : Bytes) : Out TailVal
 def encTail (env : Env) (t : Tail) (tv : TailVal) : Out Bytes :=
   match t, tv with
   | .none, .none => .ok []
-  | .vec elt, .elems es => encElems env elt es
+  | .vec elt _ oddW, .elems es =>
+    (match encElems env elt es with
+     | .ok bs => .ok (bs ++ List.replicate (if es.length % 2 = 1 then oddW else 0) 0)
+     | .err e => .err e
+     | .panic => .panic)
   | .set _, .set xs => .ok (xs.flatMap (leBytes 4))
   | .strEof wn _ _ align, .text e => .ok (writeStr wn align e)
   | _, _ => .err .encode
@@ -411,9 +416,8 @@ def decMso (bs : Bytes) : Out PVal :=
 def encMso (v : PVal) : Out Bytes :=
   match v.vals with
   | [.n reqi, .n ucid, .n plid, .n ut, .b name, .b msg] =>
-    let e := name ++ msg
-    let rounded := (e.length + 3) / 4 * 4
-    .ok ([reqi % 256, 0, ucid % 256, plid % 256, ut % 256, name.length % 256] ++ (e ++ List.replicate (rounded - e.length) 0).take 128)
+    -- the text is padded to a multiple of 4 and capped at MSO_MSG_MAX_LEN = 128, exactly like an aligned text field
+    .ok ([reqi % 256, 0, ucid % 256, plid % 256, ut % 256, name.length % 256] ++ writeStr 128 4 (name ++ msg))
   | _ => .err .encode
 
 def decBody (env : Env) (L : Layout) (bs : Bytes) : Out PVal :=
